@@ -375,7 +375,7 @@ def run(ctx):
                                              {"MaxCrashes": 1 if quick else 2}), must_pass=True, label="crash_noflush_safe")
     f_det = tlc("C04_crash", core.cfg_variant(ctx, "C04_crash_detected.cfg", "C04_crash_detected_run.cfg",
                                               {"MaxCrashes": 1 if quick else 2}), must_pass=True, label="crash_detected")
-    f_st = tlc("C04_crash", "C04_crash_shorttorn_lockout.cfg", label="crash_shorttorn_lockout")
+    f_st = [tlc("C04_crash", "C04_crash_%s_lockout.cfg" % k, label="crash_%s_lockout" % k) for k in ("shorttorn", "emptyhead")]
     # the Go harnesses build meanwhile
     f_b1 = pool.submit(ctx.go_build_test, "privval", ["zz_verif_c04_test.go"])
     f_b2 = pool.submit(ctx.go_build_test, "consensus", ["zz_verif_c04_test.go"])
@@ -407,11 +407,12 @@ def run(ctx):
         nonvac["pipeline Weak_%s refuted by TLC (%s)" % (w, names[0])] = True
         for v in rw.violations[:1]:
             attack.append(beh_of_states([st for _h, st in v["trace"]]))
-    r_st = f_st.result()
-    if not any(v["name"] == "NoSelfLockout" for v in r_st.violations):
-        raise Undecided("the short-torn-tail behaviour no longer breaks NoSelfLockout in the spec")
-    for v in r_st.violations[:1]:
-        attack.append(beh_of_states([st for _h, st in v["trace"]]))
+    for f in f_st:
+        r_st = f.result()
+        if not any(v["name"] == "NoSelfLockout" for v in r_st.violations):
+            raise Undecided("a WAL behaviour that loses synced records no longer breaks NoSelfLockout in the spec")
+        for v in r_st.violations[:1]:
+            attack.append(beh_of_states([st for _h, st in v["trace"]]))
     cs_scheds = cs_schedules(attack, [0], "attack")
     graph_total, graph_complete, r_graphs = 0, not quick, []
     for tag, plist, dotc, f in f_csg:
@@ -446,8 +447,8 @@ def run(ctx):
     nonvac["the three C04 properties hold in the pipeline WITHOUT flush-before-sign (the signer alone prevents the "
            "conflict; the flush is what makes replay recompute the same vote: NoSelfLockout)"] = True
     f_det.result()
-    nonvac["NoSelfLockout holds iff every torn WAL tail is detected; the 1..3-byte tail of the code as it is breaks it "
-           "(WAL defect, reported under C15)"] = True
+    nonvac["NoSelfLockout holds iff the WAL never loses synced records; the code as it is breaks it in two ways (undetected "
+           "1..3-byte torn tail; #ENDHEIGHT 0 written into an empty head behind rotated files) - WAL defects, property C15"] = True
     pool.shutdown()
 
     # ---- 5. trace validation (TLC judges the observed behaviour) --------------------------------
